@@ -28,7 +28,7 @@ const CLOSED_LEAVES: [&str; 45] = [
     "nil", "true", "false", "0", "1", "2", "3", "0.5", "0.1", "255", "1e15", "9007199254740993", "1e100", "1e308", "1e-7", "5e-324", "(-0)", "(1/0)", "(-1/0)", "(0/0)",
     "\"\"", "\"a\"", "\"abc\"", "\"10\"", "\" 0x10 \"", "\"1e2\"", "\"inf\"", "\"nan\"", "\"0x\"", "\"1_000\"", "\"-1\"", "\" \"", "\"\\255\"", "\"0x10\"", "{}", "function() end", "\"5\"", "10",
 ];
-const OPAQUE_LEAVES: [&str; 7] = ["g", "l", "g.f", "g[1]", "g()", "g:m()", "..."];
+const OPAQUE_LEAVES: [&str; 12] = ["g", "l", "g.f", "g[1]", "g()", "g:m()", "...", "{[g()] = 1}", "{g()}", "{x = g()}", "{[g.f] = true}", "{1, [g] = l}"];
 const REDUCED_LEAVES: [&str; 14] = ["nil", "false", "true", "0", "2", "0.1", "1e100", "(0/0)", "\"\"", "\"10\"", "\"a\"", "{}", "g", "g()"];
 const UNARY: [&str; 3] = ["not ", "-", "#"];
 const BINARY: [&str; 16] = ["or", "and", "<", ">", "<=", ">=", "~=", "==", "..", "+", "-", "*", "/", "//", "%", "^"];
